@@ -20,7 +20,7 @@ def main(run):
     )
     # the same fixpoint through the command line: kconfgen main() with --defaults files merged in front of the sdkconfig
     lat = lattice.prec_lattice(run.tier)
-    items = [p for k, p in enumerate(lat) if k % (40 if run.tier == "quick" else 4) == 0] + ktree.generate(run.seed + 1900, 25 if run.tier == "quick" else 600)
+    items = [p for k, p in enumerate(lat) if k % (40 if run.tier == "quick" else 4) == 0 or p["family"] == "F-regress"] + ktree.generate(run.seed + 1900, 25 if run.tier == "quick" else 600)
     n, bad = gencheck.main(run, items)
     run.cov["traces_validated_against_impl"] += n - bad
     run.cov["distinct_nontrivial"] += n
